@@ -3,3 +3,5 @@ NEXT Next
 CONSTRAINT Mark
 POSTCONDITION Post
 CHECK_DEADLOCK FALSE
+INVARIANT CountersExact
+INVARIANT EachOnce
